@@ -210,13 +210,23 @@ static void run_cring(const std::vector<std::string> &w, out &o)
         if (!valid) { cring_resync(c); o.tag("overmove"); }
         else if (n > 1) o.tag("bulk-move");
     }
-    else if (op == "mt1" || op == "mt")
+    else if (op == "mt1" || op == "mt" || op == "cons" || op == "cons1")
     {
-        uint64_t n = op == "mt" ? strtoull(w[1].c_str(), 0, 10) : 1;
+        uint64_t n = (op == "mt" || op == "cons") ? strtoull(w[1].c_str(), 0, 10) : 1;
         bool valid = content && n <= c.q.size();
+        if (op == "cons" || op == "cons1")
+        {
+            // the consumer reads the stored slots itself (DMA style) ...
+            bytes got;
+            for (uint64_t i = 0; i < n; i++) got.push_back(c.p()[(r->tail + i) % size]);
+            ret = S(n) + " " + hex(got);
+            for (uint64_t i = 0; valid && i < n; i++)
+                if (got[i] != c.q[i]) o.fail("consumed byte " + S(i) + " differs from the written one");
+        }
+        // ... and releases them with a tail move
         if (valid)
             for (uint64_t i = 0; i < n; i++) c.q.pop_front();
-        if (op == "mt1") ring_move_tail_one(r);
+        if (op == "mt1" || op == "cons1") ring_move_tail_one(r);
         else ring_move_tail(r, (unsigned)n);
         if (!valid) { cring_resync(c); o.tag("overmove"); }
         else if (n > 1) o.tag("bulk-move");
@@ -630,6 +640,8 @@ static void gen_exhaustive_ring(unsigned maxsize)
                     ops.push_back("write " + hex(d));
                     unsigned room = size - 1 - (h + size - t) % size;
                     if (n >= 1 && n <= room) ops.push_back("prod " + hex(d));
+                    if (n <= size - 1 - room) ops.push_back("cons " + S(n));
+                    if (n == 1 && n <= size - 1 - room) ops.push_back("cons1");
                 }
                 for (const auto &op : ops)
                 {
@@ -705,7 +717,9 @@ static void gen_random_ring(rng &r, unsigned size, int nops)
                 unsigned n = r.chance(20) ? cnt + (unsigned)r.below(3) : (unsigned)r.range(0, cnt + 1);
                 P("read " + S(n)); cnt -= std::min(n, cnt);
             }
-            else if (z < 90 && cnt) { unsigned n = (unsigned)r.range(0, cnt); P("mt " + S(n)); cnt -= n; }
+            else if (z < 84 && cnt) { unsigned n = (unsigned)r.range(0, cnt); P("cons " + S(n)); cnt -= n; }
+            else if (z < 90 && cnt) { P("cons1"); cnt--; }
+            else if (z < 96 && cnt) { unsigned n = (unsigned)r.range(0, cnt); P("mt " + S(n)); cnt -= n; }
             else if (cnt) { P("mt1"); cnt--; }
             else P("getc");
         }
